@@ -222,8 +222,13 @@ Fixpoint pick (ws : list wstmt) (ids : list N) : list stmt :=
   end.
 
 (* one variant: nodes (include tree as in C04) and the declaration order [(sid, node)..] *)
-Definition get_place (v : val) : option (N * nat) :=
-  match v with VL [VI i; VI n] => Some (Z.to_N i, Z.to_nat n) | _ => None end.
+(* [sid; node; acc]: the predicate order of a view depends on the positions of the custom
+   predicates in the predicate list, i.e. on their registration order in this variant *)
+Definition get_place (v : val) : option (N * nat * N) :=
+  match v with VL [VI i; VI n; VI a] => Some (Z.to_N i, Z.to_nat n, Z.to_N a) | _ => None end.
+Definition set_acc (w : wstmt) (a : N) : wstmt :=
+  let s := wst w in
+  mkW (wrow w) (mkS (sid s) (sphase s) (smode s) a (sreads s) (swrites s)) (wdisc w) (weager w).
 
 Record vres := mkV { v_out : outcome; v_exec : list stmt; v_decl : list stmt; v_store : store;
                      v_h0 : bool; v_sched : bool }.
@@ -235,10 +240,11 @@ Definition run_variant (ws : list wstmt) (v : val) : option vres :=
   | VL [VL nodes; VL places] =>
       olet paths := node_paths child_path nodes [[]] in
       olet pl := map_opt get_place places in
-      let decl := flat_map (fun p => match find_w (fst p) ws with Some w => [(w, snd p)] | None => [] end) pl in
+      let decl := flat_map (fun p => match find_w (fst (fst p)) ws with
+                                     | Some w => [(set_acc w (snd p), snd (fst p))] | None => [] end) pl in
       let acts := map (fun wp => to_action paths (fst wp) (snd wp)) decl in
       let '(o, log) := commit acts in
-      let ex := pick ws (run_ids log) in
+      let ex := pick (map fst decl) (run_ids log) in
       let dl := map (fun wp => wst (fst wp)) decl in
       Some (mkV o ex dl (runl ex empty) (discs_nodup acts)
                 (listN_eqb (sids ex) (sids (schedule dl))))
